@@ -119,6 +119,10 @@ func (c16) Run(c *wk.Case) {
 	var p *gen.Program
 	corpus := c16Corpus()
 	label := "generated"
+	if raw := c16RawCorpus(); c.Index >= int64(len(corpus)) && c.Index < int64(len(corpus)+len(raw)) {
+		c16Raw(c, g, raw[c.Index-int64(len(corpus))])
+		return
+	}
 	if c.Index < int64(len(corpus)) {
 		cp := corpus[c.Index]
 		p = &gen.Program{Root: cp.prog, ArgNames: cp.attrs, ArgTypes: cp.types}
@@ -130,7 +134,14 @@ func (c16) Run(c *wk.Case) {
 	for _, a := range p.ArgNames {
 		attrs[a] = true
 	}
-	imp, ok1 := safeSource(p.Root, ref.PrintOpts{})
+	impOpts := ref.PrintOpts{}
+	if c.Index%3 == 2 {
+		// mixed program: some attribute uses are written explicitly through the map variable, which
+		// is the argument of the generated function and has to stay visible as such
+		impOpts = ref.PrintOpts{MapName: "m", Attrs: attrs, Mixed: true, MixMask: c.Rng.Uint64() & c.Rng.Uint64()}
+		c.Count("mixed_programs", 1)
+	}
+	imp, ok1 := safeSource(p.Root, impOpts)
 	exp, ok2 := safeSource(p.Root, ref.PrintOpts{MapName: "m", Attrs: attrs})
 	if !ok1 || !ok2 {
 		c.Inconclusive("generator-bug", "let in a forbidden position")
@@ -212,4 +223,60 @@ func (c16) Run(c *wk.Case) {
 		c.NonTrivial(wk.Hash64(imp))
 		c.Sample(map[string]any{"implicit": imp, "explicit": exp})
 	}
+}
+
+// raw corpus: the map variable itself used as a value in an implicit-attribute program
+// (implicit text, explicit text, expected result on {x:10, y:3, l:[1,2,3]})
+func c16RawCorpus() [][3]string {
+	return [][3]string{
+		{"x+m.y", "m.x+m.y", "13"},
+		{"l.map(e->e*x+m.y).sum()", "m.l.map(e->e*m.x+m.y).sum()", "69"},
+		{"func g(a) a.x*y; g(m)", "func g(a) a.x*m.y; g(m)", "30"},
+		{"m.size()+x", "m.size()+m.x", "13"},
+		{"let q=m; q.x+y", "let q=m; q.x+m.y", "13"},
+		{"(p->p.y+x)(m)", "(p->p.y+m.x)(m)", "13"},
+		{"l.map(e->m.isAvail(\"x\") & x>e).string()", "m.l.map(e->m.isAvail(\"x\") & m.x>e).string()", "\"[true, true, true]\""},
+		{"m.map((k,v)->if k=\"l\" then 0 else v+y).x", "m.map((k,v)->if k=\"l\" then 0 else v+m.y).x", "13"},
+	}
+}
+
+func c16Raw(c *wk.Case, g *value.FunctionGenerator, it [3]string) {
+	mref := ref.NewMap()
+	mref.Keys = []string{"x", "y", "l"}
+	mref.Vals = []ref.Value{int64(10), int64(3), ref.NewList(int64(1), int64(2), int64(3))}
+	var fImp funcGen.Func[value.Value]
+	var errI error
+	var panI any
+	func() {
+		defer func() {
+			if r := recover(); r != nil {
+				panI = r
+			}
+		}()
+		fImp, _, errI = g.GenerateWithMap(it[0], "m")
+	}()
+	fExp, errE, panE := generate(g, it[1], []string{"m"})
+	if panI != nil || panE != nil || errI != nil || errE != nil {
+		c.Violation("implicit-explicit-generate-differs", fmt.Sprintf("[raw] GenerateWithMap(%q): %v %v; Generate(%q): %v %v", it[0], errI, panI, it[1], errE, panE), map[string]any{"implicit": it[0], "explicit": it[1]})
+		return
+	}
+	for kind := 0; kind < 5; kind++ {
+		va := bridge.Variant{LazyLists: kind%2 == 0, MapKind: kind}
+		gi := evalReal(fImp, []value.Value{bridge.RealMap(mref, va)})
+		ge := evalReal(fExp, []value.Value{bridge.RealMap(mref, va)})
+		si, se := "", ""
+		if gi.Err == nil {
+			si = bridge.Describe(gi.Val)
+		}
+		if ge.Err == nil {
+			se = bridge.Describe(ge.Val)
+		}
+		if gi.Err != nil || ge.Err != nil || si != se || si != it[2] {
+			c.Violation("implicit-explicit-outcome-differs", fmt.Sprintf("[raw, map kind %d] GenerateWithMap(%q) -> %s err=%v; Generate(%q) -> %s err=%v; expected %s", kind, it[0], si, gi.Err, it[1], se, ge.Err, it[2]),
+				map[string]any{"implicit": it[0], "explicit": it[1]})
+			return
+		}
+		c.Count("agreed_outcomes", 1)
+	}
+	c.NonTrivial(wk.Hash64(it[0]))
 }
